@@ -60,6 +60,9 @@ func pointerLike(t types.Type) bool {
 	return false
 }
 
+// readOnlyCallee (set per program): the function is under a contract with an empty assigns clause
+var readOnlyCallee func(fn *ssa.Function) bool
+
 func escapeAnalysis(fn *ssa.Function) *escInfo {
 	e := &escInfo{origins: map[ssa.Value]siteSet{}, ext: map[ssa.Value]bool{}, holds: map[ssa.Value]siteSet{}, esc: siteSet{}}
 	changed := true
@@ -318,6 +321,10 @@ func escapeAnalysis(fn *ssa.Function) *escInfo {
 							continue
 						}
 					}
+					// a callee under a contract that writes nothing and returns no pointer cannot retain or change its arguments
+					if sc := cc.StaticCallee(); sc != nil && !cc.IsInvoke() && readOnlyCallee != nil && readOnlyCallee(sc) && (v == nil || !pointerLike(v.Type())) {
+						continue
+					}
 					// any other call: everything passed may be retained or written through
 					for _, a := range cc.Args {
 						escape(e.origins[a])
@@ -379,6 +386,23 @@ func (x *vc) markLocal(fr *frame, st *state, instr ssa.Instruction) {
 		return
 	}
 	ref := ""
+	// `owned x`: the value a callee returned into local x is an object nobody else holds (assumption, listed): treated
+	// like an object of a non-escaping site from here on
+	if x.topFC != nil && len(x.topFC.owned) > 0 {
+		for _, name := range x.topFC.owned {
+			for _, d := range fr.named[name] {
+				if d.v == v && !d.addr {
+					x.trusted["owned "+name+" in "+fr.fn.String()+": the object returned into this local is assumed unshared (no callee can reach it afterwards)"] = true
+					switch x.srt.sortOf(val.Typ) {
+					case sSlice:
+						ref = app("sl_arr", val.T)
+					case sInt:
+						ref = val.T
+					}
+				}
+			}
+		}
+	}
 	switch in := instr.(type) {
 	case *ssa.Alloc, *ssa.MakeMap:
 		if x.escInfo.local(v) {
